@@ -56,6 +56,29 @@ fn check_view(
     if !v.chars().eq(want.iter().copied()) || !v.chars().rev().eq(want.iter().rev().copied()) {
         fail("chars", format!("{name}: chars() iteration wrong"));
     }
+    // mixed consumption from both ends
+    for front in 0..=want.len().min(3) {
+        for back in 0..=(want.len() - front).min(3) {
+            let mut it = v.chars();
+            let mut ok = true;
+            for k in 0..front {
+                ok &= it.next() == Some(want[k]);
+            }
+            for k in 0..back {
+                ok &= it.next_back() == Some(want[want.len() - 1 - k]);
+            }
+            let rest = want.len() - front - back;
+            // (the iterator does not promise an exact size_hint; a lower bound above the truth
+            // or an upper bound below it would be wrong for any iterator)
+            let (lo, hi) = it.size_hint();
+            ok &= lo <= rest && hi.map_or(true, |h| h >= rest);
+            let mid: Vec<char> = it.collect();
+            ok &= mid == want[front..want.len() - back];
+            if !ok {
+                fail("chars", format!("{name}: chars() after {front} next() and {back} next_back() calls is wrong"));
+            }
+        }
+    }
     let disp = v.to_string();
     if disp != want.iter().collect::<String>() {
         fail("display", format!("{name}: Display wrong"));
